@@ -222,39 +222,3 @@ Proof.
   unfold resolve_ref. rewrite lookup_app, Hl. reflexivity.
 Qed.
 
-(* ---------- SQ under a transformation (genuine defect, DESIGN §8 #19) ---------- *)
-(* the unit sphere centred at (2,0,0) written as SQ, moved by the translation
-   (1,0,0): the point (3,0,0) = image of the centre is classified outside *)
-Theorem sq_under_transformation_refuted :
-  exists (s : msurf R) (o : R3) (b : M3 R) (p' : R3) c,
-    mk s = KSQ /\ rows_orthonormal b /\
-    tr_convert RS (vlist o ++ mlist b) s = Ok [(c, 1%Z)] /\
-    msense s p' < 0 /\ 0 < t4val c (to_main o b p').
-Proof.
-  exists (mkMS KSQ (mkV 0 0 0) (mkV 0 0 0) [1; 1; 1; 0; 0; 0; -1; 2; 0; 0] None).
-  exists (mkV 1 0 0), (idm RS), (mkV 2 0 0).
-  assert (Eq : transformation_quad RS [1; 1; 1; 0; 0; 0; -1; 2; 0; 0] (vlist (mkV 1 0 0) ++ mlist (idm RS))
-               = [1; 1; 1; 0; 0; 0; -3; 2; 0; 2]).
-  { unfold transformation_quad, idm, ex, ey, ez. cbn -[Rmult Rplus Rminus Rdiv Ropp IZR]. repeat f_equal; field. }
-  assert (Et : transformation RS (vlist (mkV 1 0 0) ++ mlist (idm RS))
-                 (mkMS KSQ (mkV 0 0 0) (mkV 0 0 0) [1; 1; 1; 0; 0; 0; -1; 2; 0; 0] None)
-               = Ok (mkMS KSQ (mkV 0 0 0) (mkV 0 0 0) [1; 1; 1; 0; 0; 0; -3; 2; 0; 2] None)).
-  { unfold transformation. cbn [mk mcp mpt maxis mnap]. rewrite Eq. reflexivity. }
-  assert (Eg : sq_to_gq RS [1; 1; 1; 0; 0; 0; -3; 2; 0; 2] = [1; 1; 1; 0; 0; 0; -4; 0; -4; 5]).
-  { unfold sq_to_gq. cbn -[Rmult Rplus Rminus Rdiv Ropp IZR]. repeat f_equal; ring. }
-  assert (Ec : convert RS (mkMS KSQ (mkV 0 0 0) (mkV 0 0 0) [1; 1; 1; 0; 0; 0; -3; 2; 0; 2] None)
-               = Ok [(plain QUAD [1; 1; 1; 0; 0; 0; -4; 0; -4; 5], 1%Z)]).
-  { unfold convert, convert_special_quadric. cbn [mk mcp List.length Nat.ltb Nat.leb rmap]. rewrite Eg.
-    assert (Ev : sltb RS (s0 RS)
-                   (eval_quadric RS [1; 1; 1; 0; 0; 0; -4; 0; -4; 5]
-                      (mkV (nth 7 [1; 1; 1; 0; 0; 0; -3; 2; 0; 2] (s0 RS)) (nth 8 [1; 1; 1; 0; 0; 0; -3; 2; 0; 2] (s0 RS))
-                           (nth 9 [1; 1; 1; 0; 0; 0; -3; 2; 0; 2] (s0 RS)))) = false).
-    { unfold eval_quadric. cbn -[Rmult Rplus Rminus Rdiv Ropp IZR Rltb]. apply Rltb_false. lra. }
-    rewrite Ev. reflexivity. }
-  eexists. split; [reflexivity|]. split; [apply normalize_matrix_0|]. split.
-  - unfold tr_convert. rewrite Et. cbn [bind]. exact Ec.
-  - split.
-    + unfold msense, sq_fn. cbn -[Rmult Rplus Rminus Rdiv Ropp IZR]. lra.
-    + unfold t4val, plain, t4base, gq_fn, to_main, vplus, vscale, idm, ex, ey, ez.
-      cbn -[Rmult Rplus Rminus Rdiv Ropp IZR]. lra.
-Qed.
